@@ -82,7 +82,80 @@ theorem gen_authored :
     GitBugModel.Gen.Resolvers.mutatingCalls.any (fun p => p.2.any (fun c => c.2)) = true := by
   decide
 
+/-! ## "records exactly the requested change": nothing is left staged -/
+
+theorem record_perm_aux (muts : List String) (σ : Rec) :
+    ((record muts σ).stored ++ (record muts σ).staged).Perm (σ.stored ++ σ.staged ++ requested muts) := by
+  induction muts generalizing σ with
+  | nil => simp [record, requested]
+  | cons n rest ih =>
+    have h := ih (recStep σ n)
+    simp only [record, List.foldl_cons] at h ⊢
+    refine h.trans ?_
+    unfold recStep requested
+    by_cases hc : n = "Commit"
+    · subst hc
+      simp
+    · have hne : (n == "Commit") = false := by simpa using hc
+      by_cases hs : selfCommitting n = true
+      · simp only [hne, hs, Bool.false_eq_true, ↓reduceIte, List.filter_cons, bne_iff_ne, ne_eq, hc,
+          not_false_eq_true, decide_true]
+        simp only [List.append_assoc]
+        refine List.Perm.append_left _ ?_
+        simpa using (List.perm_middle (l₁ := σ.staged) (a := n) (l₂ := List.filter (fun n => n != "Commit") rest)).symm
+      · simp only [hne, hs, Bool.false_eq_true, ↓reduceIte, List.filter_cons, bne_iff_ne, ne_eq, hc,
+          not_false_eq_true, decide_true]
+        simp [List.append_assoc]
+
+theorem record_staged_empty (muts : List String) :
+    ∀ σ : Rec, commitsLast muts = true → (σ.staged = [] ∨ muts.contains "Commit" = true) →
+      (record muts σ).staged = [] := by
+  induction muts with
+  | nil => intro σ _ h; simpa [record] using h
+  | cons n rest ih =>
+    intro σ hc h
+    simp only [record, List.foldl_cons]
+    unfold commitsLast at hc
+    by_cases hn : n = "Commit"
+    · subst hn
+      simp only [beq_self_eq_true, ↓reduceIte] at hc
+      exact ih _ hc (Or.inl (by simp [recStep]))
+    · have hne : (n == "Commit") = false := by simpa using hn
+      simp only [hne, Bool.false_eq_true, ↓reduceIte] at hc
+      by_cases hs : selfCommitting n = true
+      · simp only [hs, ↓reduceIte] at hc
+        refine ih _ hc ?_
+        rcases h with h | h
+        · left; simp [recStep, hne, hs, h]
+        · right
+          simp only [List.contains_cons] at h
+          have : ("Commit" == n) = false := by simpa using fun e => hn e.symm
+          simpa [this] using h
+      · simp only [hs, Bool.false_eq_true, ↓reduceIte, Bool.and_eq_true] at hc
+        exact ih _ hc.2 (Or.inr hc.1)
+
+/-- `recorded_general`: a program whose staging calls are all followed by a `Commit`, run to its
+end from a clean bug, leaves nothing staged, and git holds exactly the requested operations
+(each once) -/
+theorem recorded_general (muts : List String) (h : commitsLast muts = true) :
+    (record muts {}).staged = [] ∧ (record muts {}).stored.Perm (requested muts) := by
+  have hs := record_staged_empty muts {} h (Or.inl rfl)
+  refine ⟨hs, ?_⟩
+  have := record_perm_aux muts {}
+  simpa [hs] using this
+
+/-- regenerated: in every resolver found in the source now, each staging call is followed by a
+`Commit` (so a mutation that reports success has recorded its change in git) -/
+theorem gen_recorded :
+    GitBugModel.Gen.Resolvers.mutatingCalls.all (fun p => commitsLast (p.2.map (·.1))) = true := by
+  decide
+
 /-! ## non-vacuity -/
+
+example : commitsLast ["AddCommentRaw", "OpenRaw", "Commit"] = true ∧
+    commitsLast ["AddCommentRaw", "Commit", "OpenRaw"] = false := by decide
+example : record ["AddCommentRaw", "Commit", "OpenRaw"] {} = { staged := ["OpenRaw"], stored := ["AddCommentRaw"] } := by decide
+
 
 example : gated [.read "getBug", .gate, .mutate "AddCommentRaw", .mutate "Commit", .read "Snapshot"] = true ∧
     gated [.read "getBug", .mutate "AddCommentRaw", .gate] = false := by decide
